@@ -22,6 +22,9 @@ def fnum(x):
 
 
 def run(ctx):
+    from ..shared import shared_container_rule as _shared_container_rule
+
+    _shared_container_rule(ctx, "R7.8", scope=lambda f, _s=("EasyFEA.FEM._gauss", "EasyFEA.FEM._group_elem"): f.module.name.startswith(_s), min_instances=50)
     ctx.level = "proof"
     ctx.explanation = (
         "Quadrature tables are read from the source as exact numbers (rationals, quadratic surds; 15-digit decimal literals "
